@@ -200,7 +200,12 @@ def run(ctx):
     k = 2
     src, module, holes = build(ctx, k)
     env = env_passthrough(module, src)
-    res = ctx.explore('create_shader_module_inner/k=2', lambda it: it.call('create_shader_module_inner', [src, none(), write_options(ctx.S.conv)]),
+    # validation off / on (symbolic): the validator stub accepts (real naga only reports a collision when one entry point uses both
+    # variables; the template's variables are unused), so the contract must hold whichever way the crate gets its group data
+    validate_on = z3.Bool('validate_is_some')
+    vo = Agg('Option', {'Some': [Agg('ValidationOptions', [Agg('Capabilities', [Agg('InternalBitFlags', [z3.BitVec('capabilities', 32)])])])], 'None': []},
+             disc=z3.If(validate_on, z3.BitVecVal(1, 64), z3.BitVecVal(0, 64)))
+    res = ctx.explore('create_shader_module_inner/k=2', lambda it: it.call('create_shader_module_inner', [src, none(), write_options(ctx.S.conv, validate=vo)]),
                       env=env, anchors=ANCHORS + ['create_shader_module_inner'])
     dup, any_dup, first_b, dense = expected(holes)
     for pc, kind, out, _ in res:
@@ -219,10 +224,11 @@ def run(ctx):
         m = ctx.check(pc, bad)
         if m is not None:
             vals = [(model_value(m, p), model_value(m, g), model_value(m, b)) for p, g, b in holes]
-            r = ctx.S.oracle.gen(template(k, vals), {})
+            von = model_value(m, validate_on)
+            r = ctx.S.oracle.gen(template(k, vals), {'validate': True} if von else {})
             got = 'ok' if 'ok' in r else r.get('err', r)
-            ctx.report('C11/end-to-end', f'pairs {vals}: create_shader_module returned {str(got)[:80]}, contract says {verdict(vals)}',
-                       {'wgsl': template(k, vals)}, not same_verdict(got, verdict(vals)))
+            ctx.report('C11/end-to-end', f'pairs {vals} (validate={von}): create_shader_module returned {str(got)[:80]}, contract says {verdict(vals)}',
+                       {'wgsl': template(k, vals), 'options': {'validate': von}}, not same_verdict(got, verdict(vals)))
     ctx.differential(template(3, [(True, 1, 7), (True, 0, 4000000000), (False, 0, 0)]), {})
     ctx.differential(template(3, [(True, 1, 7), (True, 1, 7), (True, 0, 0)]), {})
     ctx.differential(template(2, [(True, 2, 0), (True, 0, 0)]), {})
